@@ -486,14 +486,16 @@ def case_posterior(B, cfg):
 def case_prior(B, cfg):
     if not B.symbolic:
         return   # term inspection: nothing to replay on floats
-    mm = _mech(B, 2, 1)
-    pm = chi.PredictiveModel(mm, chi.GaussianErrorModel())
-    prior = SymPrior(B, 3)
+    n_out = cfg.get('n_out', 1)
+    mm = _mech(B, 2, n_out)
+    pm = chi.PredictiveModel(
+        mm, [chi.GaussianErrorModel() for _ in range(n_out)])
+    prior = SymPrior(B, 2 + n_out)
     ppm = chi.PriorPredictiveModel(pm, prior)
     rng = B.new_rng()
     ns = cfg['n_samples']
     times = cfg['times']
-    # prior draws are fresh symbols: the scale must be positive
+    # prior draws are fresh symbols: the scales must be positive
     df = None
     draws = []
     orig = prior.sample
@@ -501,32 +503,49 @@ def case_prior(B, cfg):
     def sample(n=1):
         r = orig(n)
         draws.append(r)
-        B.assume(r[0][2] > 0)
+        for o in range(n_out):
+            B.assume(r[0][2 + o] > 0)
         return r
     prior.sample = sample
     df = ppm.sample(times, n_samples=ns, seed=cfg.get('seed'))
     st = sorted(times)
-    rows = [(r['ID'], r['Time'], r['Value']) for _, r in df.iterrows()]
-    want = [(s + 1, t) for s in range(ns) for t in st]
-    got = [(int(r[0]), float(r[1])) for r in rows]
-    B.fact('labels (ID, time ascending)', got == want, repr(got[:6]))
+    outs = mm.outputs()
+    rows = [(r['ID'], r['Time'], r['Observable'], r['Value'])
+            for _, r in df.iterrows()]
+    got = [(int(r[0]), float(r[1]), r[2]) for r in rows]
+    if n_out == 1:
+        want = [(s + 1, t, outs[0]) for s in range(ns) for t in st]
+        B.fact('labels (ID, time ascending)', got == want, repr(got[:6]))
+    else:
+        want = [(s + 1, t, o) for s in range(ns) for o in outs for t in st]
+        B.fact('labels: every (ID, time, observable) once',
+               sorted(got) == sorted(want), repr(got[:8]))
+        for sid in range(1, ns + 1):
+            for o in outs:
+                ts = [g[1] for g in got if g[0] == sid and g[2] == o]
+                B.fact('labels: times of sample %d, %s ascending' % (sid, o),
+                       ts == sorted(ts), repr(ts))
     B.fact('one prior draw per sample', len(draws) == ns, str(len(draws)))
-    if got != want or len(draws) != ns:
+    if sorted(got) != sorted(want) or len(draws) != ns:
         return
-    for (sid, t), r in zip(want, rows):
-        v = Sym.lift(r[2])
+    for (sid, t, oname), r in zip(got, rows):
+        v = Sym.lift(r[3])
         ya = _yargs(v)
-        key = ('out0', float(t))
+        o = outs.index(oname)
+        key = ('out%d' % o, float(t))
         if set(ya) != {key}:
-            B.fact('row uses its own time', False)
-            return
+            B.fact('row (ID %d, t=%s, %s) holds the prediction for its own '
+                   'observable and time' % (sid, t, oname), False,
+                   repr(sorted(ya)))
+            continue
         d = draws[sid - 1][0]
+        tag = 'sample %d t=%s%s' % (sid, t, '' if n_out == 1
+                                    else ' ' + oname)
         for a, b in zip(ya[key], d[:2]):
-            B.eq('sample %d t=%s: parameters = its prior draw' % (sid, t),
-                 Sym(a), b)
-        m0, V, nm = c06.affine_law(B, v, 'row %d %s' % (sid, t))
-        B.eq('sample %d t=%s: noise scale from the same draw' % (sid, t), V,
-             d[2] * d[2])
+            B.eq('%s: parameters = its prior draw' % tag, Sym(a), b)
+        m0, V, nm = c06.affine_law(B, v, 'row %d %s %s' % (sid, t, oname))
+        B.eq('%s: noise scale from the same draw' % tag, V,
+             d[2 + o] * d[2 + o])
 
 
 def case_pam(B, cfg):
@@ -639,6 +658,9 @@ def jobs(tier):
         for seed in (None, 7):
             out.append(('prior', 'case_prior', dict(
                 n_samples=ns, times=[2.5, 1.0], seed=seed), F))
+    for ns, times_ in ((1, [2.5, 1.0]), (2, [2.5, 1.0, 4.0]), (2, [1.0])):
+        out.append(('prior', 'case_prior', dict(
+            n_samples=ns, times=times_, seed=7, n_out=2), F))
     for ns in ((1, 2) if q else (1, 2, 3)):
         out.append(('pam', 'case_pam', dict(n_samples=ns,
                                             weights=[2.0, 1.0]), F))
@@ -659,7 +681,7 @@ BOUNDS = dict(
           '(n_ids configured, n_samples) in {(1,1),(2,2),(1,2),(3,2),(2,1)}; '
           'posteriors with <= 2 chains x 2 draws x 2 individuals, default / '
           'named individual, individual- and population-level scale; prior '
-          'predictive with 1-2 samples; PAM with 2 models and 1-2 samples and with 3 models and 3 samples; '
+          'predictive with 1-2 samples and 1-2 outputs; PAM with 2 models and 1-2 samples and with 3 models and 3 samples; '
           'dose-event rows of PredictiveModel / PopulationPredictiveModel '
           'tables for 6 regimens (single, several, periodic finite and '
           'indefinite, after the last time, none) x n_samples None/1/2/3',
